@@ -245,7 +245,7 @@ def _run(terms, tier, rng, full):
         for (what, obj, wp, perm) in outs:
             try:
                 p, exact = ot.encode_any(obj, wp, M)
-            except (OffLattice, KeyError, AttributeError) as e:
+            except Exception as e:       # no image in the spec's term language: counted, never guessed
                 stats[what]["unencodable"] += 1
                 continue
             if exact:
@@ -284,7 +284,9 @@ def _run(terms, tier, rng, full):
         good = True
         for si, (what, rp) in enumerate(m["outs"]):
             clause, ea, eb = verdicts[(ci, si)]
-            if clause == "a-not-evaluated" or ea == "overflow":
+            if ea == "overflow":
+                break
+            if clause == "a-not-evaluated":
                 raise lib.MachineryError(f"generated term not evaluated by the spec ({ea}): {ot.show(t)}")
             if clause == "b-not-evaluated":
                 if eb == "overflow":
@@ -300,6 +302,10 @@ def _run(terms, tier, rng, full):
                 viol.append(Violation(key=f"{what}:{clause}:{key}", detail=f"{what} of {ot.show(t)} is {rp}: TLC verdict {clause}",
                                       replay={"term": t, "output": rp, "program_a": cases[ci]["a"], "program_b": cases[ci]["bs"][si]}))
         if ci not in emitted:
+            # only a ring-coefficient overflow of the generated term itself may leave a case without its exact matrix
+            if all(verdicts[(ci, si)][1] == "overflow" for si in range(len(m["outs"]))) and m["outs"]:
+                stats["skipped_overflow"] = stats.get("skipped_overflow", 0) + 1
+                continue
             raise lib.MachineryError(f"no exact matrix emitted for {ot.show(t)}")
         U = lib.ring_matrix_to_numpy(emitted[ci], M)
         if m["matrix"] is not None:
